@@ -370,21 +370,27 @@ Definition wit_clean := doc_of true
 
 Definition read_ok (doc : ytree) : bool := read_specb doc (Live.read doc).
 Definition rw_ok (doc : ytree) : bool := rw_specb doc (Live.read doc >>= Live.write).
+Definition read_ok_OLD (doc : ytree) : bool := read_specb doc (Live.read_OLD doc).
+Definition rw_ok_OLD (doc : ytree) : bool := rw_specb doc (Live.read_OLD doc >>= Live.write).
 
-Theorem qua_read_omitted_keysounds_refuted :
-  wf_docb wit_omit_keysounds = true /\ read_ok wit_omit_keysounds = false /\ rw_ok wit_omit_keysounds = false.
+(* the OLD reader (before fix 736886e) violated the property on these documents ... *)
+Theorem OLD_read_omitted_keysounds_refuted :
+  wf_docb wit_omit_keysounds = true /\ read_ok_OLD wit_omit_keysounds = false /\ rw_ok_OLD wit_omit_keysounds = false.
 Proof. vm_compute. repeat split. Qed.
-Theorem qua_read_hold_omitted_starttime_refuted :
-  wf_docb wit_hold_omit_start = true /\ read_ok wit_hold_omit_start = false /\ rw_ok wit_hold_omit_start = false.
+Theorem OLD_read_hold_omitted_starttime_refuted :
+  wf_docb wit_hold_omit_start = true /\ read_ok_OLD wit_hold_omit_start = false /\ rw_ok_OLD wit_hold_omit_start = false.
 Proof. vm_compute. repeat split. Qed.
-Theorem qua_read_holds_all_omit_starttime_refuted :
-  wf_docb wit_holds_all_omit_start = true /\ Live.read wit_holds_all_omit_start = None.
+Theorem OLD_read_holds_all_omit_starttime_refuted :
+  wf_docb wit_holds_all_omit_start = true /\ Live.read_OLD wit_holds_all_omit_start = None.
 Proof. vm_compute. repeat split. Qed.
-Theorem qua_read_all_omit_lane_refuted :
-  wf_docb wit_all_omit_lane = true /\ Live.read wit_all_omit_lane = None.
+Theorem OLD_read_all_omit_lane_refuted :
+  wf_docb wit_all_omit_lane = true /\ Live.read_OLD wit_all_omit_lane = None.
 Proof. vm_compute. repeat split. Qed.
-Theorem qua_read_denotes_refuted : ~ (forall doc, wf_docb doc = true -> read_ok doc = true).
-Proof. intro H. specialize (H wit_omit_keysounds eq_refl). vm_compute in H. discriminate. Qed.
+(* ... and the current reader satisfies it on each of them (read, write-after-read) *)
+Theorem qua_read_former_witnesses_ok :
+  forallb (fun d => wf_docb d && read_ok d && rw_ok d)
+          [wit_omit_keysounds; wit_hold_omit_start; wit_holds_all_omit_start; wit_all_omit_lane] = true.
+Proof. vm_compute. reflexivity. Qed.
 
 (* a chart as the converters produced it on the pinned tree: extra `index` column, NaN keysounds *)
 Definition wit_conv_chart (index nan : bool) : chart :=
@@ -422,3 +428,51 @@ Theorem qua_clean_doc_ok :
   (let w1 := Live.read wit_clean >>= Live.write in
    match w1, w1 >>= Live.read >>= Live.write with Some a, Some b => tree_eqb true a b | _, _ => false end) = true.
 Proof. vm_compute. repeat split. Qed.
+
+(* ------------------------------------------------------------------ the repaired note reader on the record shapes the
+   OLD reader got wrong, for ALL values (symbolic evaluation of the pipeline, arithmetic kept abstract) *)
+(* the reader agrees with qua_denote on a list of note records: frame produced, every row denotable, same notes *)
+Definition reads_as_denoted (reader : list row -> option frame) (rowden : row -> option noteD) (recs : list row) : Prop :=
+  exists fr ns es, reader recs = Some fr /\ omap rowden (f_rows fr) = Some ns /\
+                   omap note_denote (map YMap recs) = Some es /\ all2 note_eqb es ns = true.
+
+Ltac q_fin := apply Qeq_bool_iff; rewrite ?Qred_correct, ?inject_Z_plus, ?inject_Z_opp; rewrite ?Qred_correct;
+              change (inject_Z 0) with 0%Q; change (inject_Z 1) with 1%Q; try lra; try ring.
+Ltac use_texts := repeat match goal with H : is_text_list _ = true |- _ => rewrite H end.
+Ltac notes_fin :=
+  cbv [all2 note_eqb n_lane n_start n_end n_ks oq_eqb];
+  repeat (apply andb_true_iff; split); try reflexivity;
+  try (apply Z.eqb_eq; lia); try apply texts_eqb_refl; try q_fin.
+Ltac shape_tac :=
+  do 3 eexists; split; [cbv - [Z.add Z.opp Qred Qplus Qopp inject_Z]; reflexivity|];
+  split; [cbv - [Z.add Z.opp Qred Qplus Qopp inject_Z is_text_list texts_of Qeq_bool Qfloor]; use_texts; reflexivity|];
+  split; [cbv - [Z.add Z.opp Qred Qplus Qopp inject_Z is_text_list texts_of]; use_texts; reflexivity|];
+  notes_fin.
+
+(* a hold that omits StartTime is read with length EndTime - 0 *)
+Theorem hold_omitting_starttime_read e l ks : is_text_list ks = true ->
+  reads_as_denoted holds_from_yaml hold_row_denote [[(K_EndTime, YInt e); (K_Lane, YInt l); (K_KeySounds, YList ks)]].
+Proof. intro H. shape_tac. Qed.
+(* ... also next to a complete hold (the case the OLD reader read with length 0) *)
+Theorem hold_omitting_starttime_beside_complete_read e1 l1 ks1 s2 e2 l2 ks2 :
+  is_text_list ks1 = true -> is_text_list ks2 = true ->
+  reads_as_denoted holds_from_yaml hold_row_denote
+    [[(K_EndTime, YInt e1); (K_Lane, YInt l1); (K_KeySounds, YList ks1)];
+     [(K_StartTime, YInt s2); (K_EndTime, YInt e2); (K_Lane, YInt l2); (K_KeySounds, YList ks2)]].
+Proof. intros H1 H2. shape_tac. Qed.
+(* omitted KeySounds read as [] (alone, and beside a note that has them); omitted Lane everywhere reads as lane 1 *)
+Theorem hit_omitting_keysounds_read s l : 
+  reads_as_denoted hits_from_yaml hit_row_denote [[(K_StartTime, YInt s); (K_Lane, YInt l)]].
+Proof. shape_tac. Qed.
+Theorem hit_omitting_keysounds_beside_complete_read s1 l1 s2 l2 ks2 : is_text_list ks2 = true ->
+  reads_as_denoted hits_from_yaml hit_row_denote
+    [[(K_StartTime, YInt s1); (K_Lane, YInt l1)]; [(K_KeySounds, YList ks2); (K_Lane, YInt l2); (K_StartTime, YInt s2)]].
+Proof. intro H. shape_tac. Qed.
+Theorem hits_all_omitting_lane_read s1 ks1 s2 : is_text_list ks1 = true ->
+  reads_as_denoted hits_from_yaml hit_row_denote [[(K_StartTime, YInt s1); (K_KeySounds, YList ks1)]; [(K_StartTime, YInt s2)]].
+Proof. intro H. shape_tac. Qed.
+Theorem holds_all_omitting_lane_and_start_read e1 e2 :
+  reads_as_denoted holds_from_yaml hold_row_denote [[(K_EndTime, YInt e1)]; [(K_EndTime, YInt e2)]].
+Proof. shape_tac. Qed.
+Theorem empty_hit_record_read : reads_as_denoted hits_from_yaml hit_row_denote [[]].
+Proof. shape_tac. Qed.
